@@ -23,6 +23,7 @@ typedef struct drv_prog {
     long (*getstate)(void *st);
     void (*setstate)(void *st, long k);
     void (*invariants)(void *st);
+    void (*prep)(void *st);      /* after POISON: scalar outputs without defaults are the user's to initialise */
 } drv_prog_t;
 
 extern FILE *drv_log;
